@@ -337,6 +337,14 @@ func c10upload(ev *evid.Rec) func(rt *rapid.T) {
 			}
 		}
 		target := rapid.SampledFrom([]string{"root", "Uploads"}).Draw(rt, "target")
+		cutAt, wasCut := -1, false
+		if rapid.IntRange(0, 2).Draw(rt, "cutFirst") == 0 {
+			streamed := 0
+			for _, it := range all {
+				streamed += len(it.data) + 150
+			}
+			cutAt = rapid.IntRange(0, 16+streamed).Draw(rt, "cutAt")
+		}
 		inWorld(rt, hlsim.Options{Agreement: "a", Accounts: []hlsim.AccountSpec{acct("admin", "Admin", "adminpw", allAccess)}}, func(rt *rapid.T, w *hlsim.World) {
 			base := w.FileRoot
 			var path []byte
@@ -362,7 +370,6 @@ func c10upload(ev *evid.Rec) func(rt *rapid.T) {
 			c := loginAs(rt, w, "10.0.0.1:1", "admin", "adminpw", "admin")
 			total := 0
 			var items []hlsim.UploadItem
-			var expect []string
 			for _, it := range all {
 				u := hlsim.UploadItem{IsDir: it.dir, Data: it.data}
 				for _, p := range it.path {
@@ -370,40 +377,83 @@ func c10upload(ev *evid.Rec) func(rt *rapid.T) {
 				}
 				items = append(items, u)
 				total += len(it.data)
-				key := strings.Join(it.path, "/")
-				switch s, ok := seed[key]; {
-				case it.dir:
-					expect = append(expect, "next")
-				case ok && s < 0:
-					expect = append(expect, "next")
-				case ok:
-					expect = append(expect, fmt.Sprintf("resume:%d", s))
-				default:
-					expect = append(expect, "send")
+			}
+			// what the server must answer per item, from what is on disk when the upload starts
+			expectNow := func() (expect []string) {
+				for _, it := range all {
+					full := filepath.Join(dst, filepath.Join(it.path...))
+					switch {
+					case it.dir:
+						expect = append(expect, "next")
+					case fileExists(full):
+						expect = append(expect, "next")
+					case fileExists(full + ".incomplete"):
+						st, _ := os.Stat(full + ".incomplete")
+						expect = append(expect, fmt.Sprintf("resume:%d", st.Size()))
+					default:
+						expect = append(expect, "send")
+					}
+				}
+				return expect
+			}
+			upload := func(remote string, cut int) (hlsim.UploadTrace, []string, error) {
+				expect := expectNow()
+				fs := []hlref.Field{sfld(hlref.FFileName, "Up"), fld(hlref.FTransferSize, hlref.BE32(total)), fld(hlref.FFolderItemCount, hlref.BE16(len(items)))}
+				fs = append(fs, pathField(path)...)
+				r := c.Request(hlref.TranUploadFldr, fs...)
+				if !okReply(r) {
+					rt.Fatalf("folder upload not granted: %s", replySummary(r))
+				}
+				ref, _ := r.Get(hlref.FRefNum)
+				tr, err := w.FolderUploadCut(remote, ref, items, cut)
+				return tr, expect, err
+			}
+			if cutAt >= 0 {
+				// the connection dies after cutAt bytes of the client's stream: nothing may be published truncated,
+				// partial data must be a prefix, and the same upload done again must complete the tree
+				tr, expect, err := upload("10.0.0.1:3", cutAt)
+				if err == hlsim.ErrCut {
+					wasCut = true
+					for i, a := range tr.Actions {
+						if a != "no-answer" && a != expect[i] {
+							rt.Fatalf("folder upload (cut after %d bytes): server answered %v, expected a prefix of %v for items %s (pre-seeded: %v)", cutAt, tr.Actions, expect, itemNames(all), seed)
+						}
+					}
+					for _, it := range all {
+						if it.dir {
+							continue
+						}
+						full := filepath.Join(dst, filepath.Join(it.path...))
+						if b, e := os.ReadFile(full); e == nil && !bytes.Equal(b, it.data) {
+							rt.Fatalf("folder upload cut after %d bytes of the client's stream: %q is published under its final name with %d bytes, the client's file has %d (pre-seeded: %v)", cutAt, strings.Join(it.path, "/"), len(b), len(it.data), seed)
+						}
+						if b, e := os.ReadFile(full + ".incomplete"); e == nil && !bytes.HasPrefix(it.data, b) {
+							rt.Fatalf("folder upload cut after %d bytes: partial data of %q (%d bytes) is not a prefix of the client's file", cutAt, strings.Join(it.path, "/"), len(b))
+						}
+					}
+				} else if err != nil {
+					rt.Fatalf("folder upload of %s: %v (answers so far %v)", itemNames(all), err, tr.Actions)
 				}
 			}
-			fs := []hlref.Field{sfld(hlref.FFileName, "Up"), fld(hlref.FTransferSize, hlref.BE32(total)), fld(hlref.FFolderItemCount, hlref.BE16(len(items)))}
-			fs = append(fs, pathField(path)...)
-			r := c.Request(hlref.TranUploadFldr, fs...)
-			if !okReply(r) {
-				rt.Fatalf("folder upload not granted: %s", replySummary(r))
-			}
-			ref, _ := r.Get(hlref.FRefNum)
-			tr, err := w.FolderUpload("10.0.0.1:2", ref, items)
+			tr, expect, err := upload("10.0.0.1:2", -1)
 			if err != nil {
 				rt.Fatalf("folder upload of %s: %v (answers so far %v)", itemNames(all), err, tr.Actions)
 			}
 			if fmt.Sprint(tr.Actions) != fmt.Sprint(expect) {
-				rt.Fatalf("folder upload: server answered %v, expected %v for items %s (pre-seeded: %v)", tr.Actions, expect, itemNames(all), seed)
+				rt.Fatalf("folder upload: server answered %v, expected %v for items %s (pre-seeded: %v, earlier upload cut: %v)", tr.Actions, expect, itemNames(all), seed, wasCut)
 			}
 			if d := sameItems(readTree(dst), all); d != "" {
-				rt.Fatalf("folder upload: resulting tree differs from the streamed tree: %s (pre-seeded: %v)", d, seed)
+				rt.Fatalf("folder upload: resulting tree differs from the streamed tree: %s (pre-seeded: %v, earlier upload cut: %v at %d)", d, seed, wasCut, cutAt)
 			}
 			// round trip: download what was uploaded
 			downloadFolder(rt, w, c, "Up", path, kids, func(int, int) (int, int) { return 1, 0 })
 		})
 		nd, f := hasNested(kids)
-		ev.Case(evid.Hash("ul", treeHash(kids), fmt.Sprint(seed)), nd && f && len(seed) > 0, "upload", fmt.Sprintf("entries:%d", min(len(all)/10*10, 100)), "target:"+target)
+		cl := "uncut"
+		if wasCut {
+			cl = "cut-then-again"
+		}
+		ev.Case(evid.Hash("ul", treeHash(kids), fmt.Sprint(seed), cutAt), nd && f && (len(seed) > 0 || wasCut), "upload", cl, fmt.Sprintf("entries:%d", min(len(all)/10*10, 100)), "target:"+target)
 		if nd && f && len(seed) > 0 && ev.WantSample() {
 			ev.Sample(map[string]any{"direction": "upload+roundtrip", "tree": itemNames(all), "preseeded(-1=complete,n=partial bytes)": seed})
 		}
@@ -420,4 +470,9 @@ func TestC10Upload(t *testing.T) {
 	ev := evid.New("C10", "TestC10Upload")
 	defer ev.Flush()
 	rapid.Check(t, c10upload(ev))
+}
+
+func fileExists(p string) bool {
+	st, err := os.Stat(p)
+	return err == nil && !st.IsDir()
 }
